@@ -93,6 +93,10 @@ def plan(tier, seed):
     jobs.append({'space': 'faults', 'tier': tier, 'weight': 50})
     jobs.append({'space': 'request', 'tier': tier, 'weight': 50})
     jobs.append({'space': 'position', 'tier': tier, 'weight': 200})
+    for first in 'AB':
+        for ct in ('form', 'json'):
+            jobs.append({'space': 'twothreads', 'first': first, 'ct': ct,
+                         'tier': tier, 'weight': 2000})
     return jobs
 
 
@@ -215,6 +219,60 @@ def run_charsets(acc):
                                  'rule': name, 'content_type': ct}, want,
                                 got, 'bodies')
                 acc.outcome('charset-%s' % ('allow' if exp else 'deny'))
+
+
+def run_twothreads(acc, job):
+    """Engine E3: two threads evaluate the SAME http / https check objects
+    of one enforcer with different targets (one URL is answered True, the
+    other False) and different credentials.  Each request goes to its own
+    URL with its own payload, each caller gets its own URL's answer - every
+    schedule with <= 1 preemption at the library's line boundaries."""
+    from mc import pairs
+    ct = {'form': 'application/x-www-form-urlencoded',
+          'json': 'application/json'}[job['ct']]
+    seen = []
+
+    def responder(req, kw):
+        try:
+            r, t, c = decode_payload(req, ct)
+        except Exception as e:
+            r, t, c = None, None, repr(e)
+        seen.append((urllib.parse.unquote(req.url), t, c))
+        return 200, (b'True' if req.url.endswith('/bob') else b'False'), {}
+    who = {'A': ({'name': 'alice', 'n': {'k': [1]}},
+                 {'roles': ['a'], 'user_id': 'ua'}),
+           'B': ({'name': 'bob', 'n': {'k': [2]}},
+                 {'roles': ['b'], 'user_id': 'ub'})}
+    with world.HttpStub(responder):
+        for rule, flip in (('http://srv.test/v1/%(name)s', False),
+                           ('https://srv.test/v1/%(name)s', False),
+                           ('not http://srv.test/v1/%(name)s', True)):
+            expected = {'A': flip, 'B': not flip}
+
+            def make_bodies():
+                enf = enforcer(ct)
+                world.set_rules(enf, {'p': rule})
+                del seen[:]
+                return {n: (lambda n=n: bool(enf.enforce(
+                    'p', copy.deepcopy(who[n][0]),
+                    copy.deepcopy(who[n][1])))) for n in 'AB'}
+            n_ex = pairs.explore(acc, 'twothreads', rule, make_bodies,
+                                 expected, 1,
+                                 lambda n: 'target %r' % (who[n][0],),
+                                 firsts=(job['first'],))
+            acc.add('two_thread_executions', n_ex)
+            # the LAST execution's requests (all executions are alike in what
+            # they must send): each URL got the payload of its own caller
+            for url, t, c in seen:
+                name = url.rsplit('/', 1)[1]
+                own = [n for n in 'AB' if who[n][0]['name'] == name]
+                if not own or t != who[own[0]][0] or c != who[own[0]][1]:
+                    acc.violation(
+                        'twothreads|payload',
+                        'request to %s carried target %r credentials %r' %
+                        (url, t, c), {'rule': rule, 'content_type': ct},
+                        'own payload', [t, c], 'twothreads')
+    acc.sample('twothreads', {'rules': 3, 'content_type': ct})
 
 
 def run_faults(acc, job):
